@@ -48,7 +48,8 @@ def ENCODED():
             g.CommandStreamEmitter.cmd_wait, g.CommandStreamEmitter.cmd_do_operation, rs.RangeSet.intersects,
             rs.RangeSet.__or__, rs.RangeSet.__ior__, rs.MemoryRangeSet.intersects, rs.MemoryRangeSet.__ior__,
             rs.MemoryAccessSet.add, rs.MemoryAccessSet.conflicts, u.get_dma_memory_accesses, u.memory_range_set,
-            u.calc_blockdep, u.get_offset_block_coords, u.coords_intersect, u.intersects]
+            u.calc_blockdep, u.get_offset_block_coords, u.coords_intersect, u.intersects,
+            __import__("ethosu.vela.architecture_features", fromlist=["x"]).ArchitectureFeatures.get_ifm_block_size, u.get_op_memory_accesses]
 
 
 # ---------------------------------------------------------------------------------------------- layer 1
@@ -367,11 +368,54 @@ def shram_writes(V, accel, lut, kind):
 
 # ---------------------------------------------------------------------------------------------- instances
 
-FUNCS = {"waits": waits, "wait_step": wait_step, "rangeset": rangeset, "access": access, "dma_access": dma_access, "blockdep": blockdep, "shram_writes": shram_writes}
+def ifm_block(V, accel, dil_x, dil_y, upscale):
+    """ArchitectureFeatures.get_ifm_block_size as calc_blockdep uses it (sub-kernel limit = ofm_block_max): the IFM block that the BLOCKDEP
+    overlap analysis assumes a job reads must cover the job's input window per axis - (block-1)*stride + min(dilated kernel, sub-kernel)
+    elements (halved, rounded up, under 2x upscaling), rounded up to the IFM micro-block - height from the y quantities, width from the x
+    quantities.  A smaller volume makes the analysis miss an overlap with the previous operation's last blocks (BLOCKDEP too large)."""
+    import ethosu.vela.architecture_features as af
+    import ethosu.vela.numeric_util as nu
+    from ethosu.vela.operation import Kernel
+    from ethosu.vela.architecture_features import Block
+    from ethosu.vela.ethos_u55_regs.ethos_u55_regs import resampling_mode
+    from symx import rat
+
+    arch = arch_for(accel)
+    kw, kh = V.int("kernel_w", 1, 64), V.int("kernel_h", 1, 64)
+    sx, sy = V.int("stride_x", 1, 3), V.int("stride_y", 1, 3)
+    bw, bh, bd = V.int("ofm_block_w", 1, 64), V.int("ofm_block_h", 1, 64), V.int("ifm_block_depth", 1, 64)
+    k = Kernel.__new__(Kernel)
+    from ethosu.vela.operation import PointXY
+    k.width, k.height, k.stride, k.dilation = kw, kh, PointXY(sx, sy), PointXY(dil_x, dil_y)
+    mode = [resampling_mode.NONE, resampling_mode.NEAREST, resampling_mode.TRANSPOSE][upscale]
+    with core.shims((af, {"min": core.smin, "max": core.smax, "int": core.sint}), (nu, {"math": rat.SMATH, "int": core.sint})):
+        blk = arch.get_ifm_block_size(bd, Block(bw, bh, 16), k, arch.ofm_block_max, mode)
+    up = 1 if upscale == 0 else 2
+    ub = arch.ifm_ublock
+    sub = arch.ofm_block_max
+
+    def need(block, stride, ksize, dil, sublimit, ublock):
+        dk = (L(ksize) - 1) * dil + 1
+        win = (L(block) - 1) * L(stride) + z3.If(dk < sublimit, dk, sublimit)
+        rows = (win + up - 1) / up
+        return ((rows + ublock - 1) / ublock) * ublock
+
+    return [("IFM block height covers the rows of a job's input window (y stride, dilated kernel height, micro-block rounding)",
+             L(blk.height) == need(bh, sy, kh, dil_y, sub.height, ub.height)),
+            ("IFM block width covers the columns of a job's input window (x stride, dilated kernel width, micro-block rounding)",
+             L(blk.width) == need(bw, sx, kw, dil_x, sub.width, ub.width)),
+            ("IFM block depth is the requested depth", L(blk.depth) == L(bd))]
+
+
+FUNCS = {"ifm_block": ifm_block, "waits": waits, "wait_step": wait_step, "rangeset": rangeset, "access": access, "dma_access": dma_access, "blockdep": blockdep, "shram_writes": shram_writes}
 
 
 def instances(tier, seed):
     out = []
+    for accel in ("Ethos_U55_32", "Ethos_U55_128", "Ethos_U65_256", "Ethos_U65_512"):
+        for dx, dy in ((1, 1), (2, 1), (1, 2)):
+            for ups in (0, 1, 2):
+                out.append(dict(key="ifm_block/%s/d%dx%d/up%d" % (accel, dx, dy, ups), fn="ifm_block", params=dict(accel=accel, dil_x=dx, dil_y=dy, upscale=ups)))
     nmax = 6 if tier == "quick" else 9
     for accel in ("Ethos_U55_128", "Ethos_U65_256"):
         for n in range(1, nmax + 1):
